@@ -75,3 +75,82 @@ Proof. vm_compute. reflexivity. Qed.
 Example C06_ex_plus_size :
   snd (result3 (read_all (new_chunked (bs "+5" ++ [x0d;x0a] ++ bs "hello" ++ [x0d;x0a] ++ bs "0" ++ [x0d;x0a;x0d;x0a]) []) [100; 100]%N [])) = Failed EInvalidData.
 Proof. vm_compute. reflexivity. Qed.
+
+(* --- both interfaces on ONE reader, in any interleaving, zero-sized requests included (Model/BodyOps.v: operations
+   MRead k | MFill | MConsume n | MTake a; the driver [mrun0] records what every operation returned and stops at the first
+   error; [delivered] = bytes returned by reads + bytes consumed after a fill_buf).  Proofs/BodyMixed.v *)
+From KV Require Import Model.BodyOps Proofs.BodyMixed Proofs.BodyMixedPartial.
+
+(* safety: whatever the caller does, what has been delivered is a prefix of the payload, no operation fails, and an empty read
+   (k > 0) or an empty fill_buf slice is reported exactly when the whole payload has been delivered *)
+Theorem C06_mixed_chunked_safe : forall lo st p rest ops pre ev post,
+  spec_decode (lo ++ concat st) = Valid p rest ->
+  mrun0 (new_chunked lo st) ops = pre ++ ev :: post ->
+  prefix_of (delivered (pre ++ [ev])) p /\
+  is_err ev = false /\
+  (forall k out, ev = EvRead k out -> (0 < k)%N -> (out = [] <-> delivered pre = p)) /\
+  (forall sl, ev = EvFill sl -> (sl = [] <-> delivered pre = p)) /\
+  (forall n t, ev = EvConsume n t -> lenN t = n).
+Proof. exact mixed_chunked_safe. Qed.
+Print Assumptions C06_mixed_chunked_safe.
+Theorem C06_mixed_fixed_safe : forall lo st n p rest ops pre ev post,
+  spec_fixed n (lo ++ concat st) = Valid p rest ->
+  mrun0 (new_fixed lo st n) ops = pre ++ ev :: post ->
+  prefix_of (delivered (pre ++ [ev])) p /\
+  is_err ev = false /\
+  (forall k out, ev = EvRead k out -> (0 < k)%N -> (out = [] <-> delivered pre = p)) /\
+  (forall sl, ev = EvFill sl -> (sl = [] <-> delivered pre = p)) /\
+  (forall n t, ev = EvConsume n t -> lenN t = n).
+Proof. exact mixed_fixed_safe. Qed.
+Print Assumptions C06_mixed_fixed_safe.
+
+(* the end, once reported, is reported by every later operation and nothing more is delivered *)
+Theorem C06_mixed_chunked_sticky : forall lo st p rest ops pre ev post,
+  spec_decode (lo ++ concat st) = Valid p rest ->
+  mrun0 (new_chunked lo st) ops = pre ++ ev :: post -> is_end ev = true ->
+  delivered pre = p /\ Forall quiet post.
+Proof. exact mixed_chunked_sticky. Qed.
+Theorem C06_mixed_fixed_sticky : forall lo st n p rest ops pre ev post,
+  spec_fixed n (lo ++ concat st) = Valid p rest ->
+  mrun0 (new_fixed lo st n) ops = pre ++ ev :: post -> is_end ev = true ->
+  delivered pre = p /\ Forall quiet post.
+Proof. exact mixed_fixed_sticky. Qed.
+
+(* completeness: a caller that keeps asking (more asking operations than the payload is long, within the BufRead contract
+   [mwf]: consume at most what fill_buf showed) gets the whole payload and then the end - mixed use loses nothing, repeats
+   nothing and cannot get stuck *)
+Theorem C06_mixed_chunked_complete : forall lo st p rest ops,
+  spec_decode (lo ++ concat st) = Valid p rest ->
+  mwf (mrun0 (new_chunked lo st) ops) -> (length p < asking_ops ops)%nat ->
+  delivered (mrun0 (new_chunked lo st) ops) = p /\
+  exists pre ev post, mrun0 (new_chunked lo st) ops = pre ++ ev :: post /\ is_end ev = true.
+Proof. exact mixed_chunked_complete_ops. Qed.
+Print Assumptions C06_mixed_chunked_complete.
+Theorem C06_mixed_fixed_complete : forall lo st n p rest ops,
+  spec_fixed n (lo ++ concat st) = Valid p rest ->
+  mwf (mrun0 (new_fixed lo st n) ops) -> (length p < asking_ops ops)%nat ->
+  delivered (mrun0 (new_fixed lo st n) ops) = p /\
+  exists pre ev post, mrun0 (new_fixed lo st n) ops = pre ++ ev :: post /\ is_end ev = true.
+Proof. exact mixed_fixed_complete_ops. Qed.
+Print Assumptions C06_mixed_fixed_complete.
+
+(* a cut or malformed encoding: no interleaving ever sees a normal end of body, and what is delivered before the error is a
+   prefix of the data of the complete chunks (plus the bytes present of a cut chunk) *)
+Theorem C06_mixed_chunked_invalid : forall lo st w ops e,
+  spec_decode (lo ++ concat st) = Invalid w ->
+  In e (mrun0 (new_chunked lo st) ops) -> is_end e = false.
+Proof. exact mixed_chunked_invalid. Qed.
+Theorem C06_mixed_fixed_invalid : forall lo st n w ops e,
+  spec_fixed n (lo ++ concat st) = Invalid w ->
+  In e (mrun0 (new_fixed lo st n) ops) -> is_end e = false.
+Proof. exact mixed_fixed_invalid. Qed.
+Theorem C06_mixed_chunked_partial : forall lo st ops, spec_decode (lo ++ concat st) <> Unspecified ->
+  prefix_of (delivered (mrun0 (new_chunked lo st) ops)) (spec_partial (lo ++ concat st)).
+Proof. exact mixed_chunked_partial. Qed.
+Print Assumptions C06_mixed_chunked_invalid.
+Print Assumptions C06_mixed_chunked_partial.
+
+(* a zero-sized read (an empty caller buffer) on a fixed-length body returns nothing and changes nothing, in every state
+   (repaired finding F38: it used to report the body as truncated) *)
+Theorem C06_fixed_read0_ok : forall r, body_read 0 (BFixed r) = ROk [] (BFixed r).
+Proof. exact fixed_read0_ok. Qed.
